@@ -109,6 +109,7 @@ func runC15(c *Ctx) {
 	c.Rule("R-DEFER", "a deferred assignment to a named error result joins, wraps or is guarded by the current value", 60)
 	ruleDefer(c, "R-DEFER", mods)
 	c15StagedUntilFlush(c)
+	c15PutAllGiven(c)
 	c11ArchiveLastWins(c)
 
 	// (2) R-ERRUSE
